@@ -415,3 +415,35 @@ Proof.
   exists (env_of [("xs", VInts [3; 1]%Z)] [("len", fun _ => VInt 0)]), (EIndex (EIdent "xs" TInts) w_shadow_len).
   split; [apply env_of_ok|]. vm_compute. repeat split.
 Qed.
+
+(* a comparison of a float operand with itself is not constant: the x != x / x == x NaN tests *)
+Theorem self_comparison_float_not_constant :
+  cmp_val ONe (VFloat FNaN) (VFloat FNaN) = Some true /\ cmp_val ONe (VFloat (FFin (Qmake 1 1))) (VFloat (FFin (Qmake 1 1))) = Some false /\
+  cmp_val OLe (VFloat FNaN) (VFloat FNaN) = Some false /\ cmp_val OLe (VFloat (FFin (Qmake 1 1))) (VFloat (FFin (Qmake 1 1))) = Some true.
+Proof. vm_compute. repeat split. Qed.
+
+(* ... while for every other value it is: == <= >= true, != < > false *)
+Theorem self_comparison_constant_non_float o v c :
+  vty v <> TFloat -> cmp_val o v v = Some c ->
+  c = match o with OEq | OLe | OGe => true | _ => false end.
+Proof.
+  intros F. destruct v; simpl; try discriminate.
+  - rewrite Z.compare_refl. destruct o; simpl; intros H; inversion H; reflexivity.
+  - exfalso; apply F; reflexivity.
+  - assert (String.compare s s = Eq) as ->.
+    { destruct (String.compare s s) eqn:C; auto;
+        pose proof (String.compare_antisym s s) as A; rewrite C in A; simpl in A; discriminate. }
+    destruct o; simpl; intros H; inversion H; reflexivity.
+  - destruct o; simpl; try discriminate; intros H; inversion H; destruct b; reflexivity.
+Qed.
+
+(* caseOrder treats `case T` (T a type parameter) as a case of T's constraint interface; for an instantiation
+   with a concrete type it is a concrete case: an entry flagged after it can be reached *)
+Theorem case_order_type_parameter_refuted :
+  exists impl es_checker es_run i j, In (i, j) (case_order impl es_checker) /\
+    first_match impl es_run (DType 8%N) 0 = Some i.
+Proof.
+  (* checker's view: [T as interface I1 (id 2); T1 (id 8)]; at run time T = T2 (id 9): [T2; T1] *)
+  exists (fun t i => N.eqb i 2), [(2%N, KIface); (8%N, KConcrete)], [(9%N, KConcrete); (8%N, KConcrete)], 1, 0.
+  split; [left; reflexivity|reflexivity].
+Qed.
